@@ -27,8 +27,18 @@ pub broadcast axiom fn axiom_spec_empty()
 pub broadcast axiom fn axiom_path_ext(a: ItemPath, b: ItemPath)
     ensures #[trigger] path_view(a) == #[trigger] path_view(b) ==> a == b;
 
+/// a path without segments is the root path
+pub broadcast proof fn lemma_empty_path_unique(p: ItemPath)
+    ensures #[trigger] p.0@.len() == 0 ==> p == spec_empty_path()
+{
+    if p.0@.len() == 0 {
+        broadcast use axiom_spec_empty;
+        assert(path_view(p) =~= path_view(spec_empty_path()));
+        axiom_path_ext(p, spec_empty_path());
+    }
+}
 pub broadcast group group_path_axioms {
-    axiom_spec_parent, axiom_spec_join, axiom_spec_empty, axiom_path_ext,
+    axiom_spec_parent, axiom_spec_join, axiom_spec_empty, axiom_path_ext, lemma_empty_path_unique,
 }
 
 /// the module an item path belongs to
